@@ -620,8 +620,11 @@ def c02(tier):
 def c13(tier):
     jobs = [T("transformer", "VerifC13_PrinterFrozen", {"N": W(tier, 1, 2)}),
             T("transformer", "VerifC02_Shapes", {"NODES": 4, "DEPTH": 2, "WIDTH": 3}),
-            T("transformer", "VerifC08_PrinterDegenerate", {"NODES": 3, "DEPTH": 2})]
-    out = engine_a_check("C13", tier, jobs, {"VerifC13_PrinterFrozen": ["printed"], "VerifC02_Shapes": ["accepted"], "VerifC08_PrinterDegenerate": ["accepted"]},
+            T("transformer", "VerifC08_PrinterDegenerate", {"NODES": 3, "DEPTH": 2}),
+            T("graph", "VerifC13_GraphHistory"), fam(0, "K", **FIRST),
+            T("transformer", "VerifC07_Merge", {"SCEN": 2, "N": 1, "NR": 1})]
+    out = engine_a_check("C13", tier, jobs, {"VerifC13_PrinterFrozen": ["printed"], "VerifC02_Shapes": ["accepted"], "VerifC08_PrinterDegenerate": ["accepted"],
+                                             "VerifC13_GraphHistory": ["built"], "VerifGraph_Family": ["accepted"], "VerifC07_Merge": ["accepted"]},
                          ["data races, goroutines and the parser's prediction-cache history are outside (not applicable to this technique)",
                           "decided: no store into anything reachable from the argument (frozen-object monitor) and no store into a package-level variable of the repository"], "",
                          bounds={"printer": "modular models with symbolic names (so that the sort really swaps), all C02 shapes <= 4 nodes, degenerate protos"})
@@ -723,7 +726,9 @@ def c05(tier):
 
 
 def c06(tier):
-    graph_check("C06", 6, tier, [("A", *AL), ("C", *RA), ("H", *RR), ("L", *RR), ("K", *RR)], THOROUGH_GRAPH, reach=["return"])
+    twin = lambda name: dict(T("graph", "VerifC06_OperandOrder", dict(FAMS[name][0]), **FIRST), _reach=["accepted"])  # noqa
+    graph_check("C06", 6, tier, [("A", *AL), ("C", *RA), ("H", *RR), ("L", *RR), ("K", *RR)], THOROUGH_GRAPH, reach=["return"],
+                extra_jobs=[twin("B"), twin("K")] + ([twin("D")] if tier == "thorough" else []))
 
 
 def c10(tier):
